@@ -4,7 +4,11 @@ from vlib.runner import Batch
 ID = "C14"
 LEAN_PROPS = ["FcpptProofs.Props.C14"]
 # -g1: line tables only — the harness instantiates several thousand templates and full debug info doubles its build time
-HARNESS = {"src": "harness/c14.cpp", "flags": ["-g1"]}
+# second translation unit (member operators): compiled in parallel with the first.  vlib/harness.py joins every entry of
+# repo_srcs to the fcppt tree with os.path.join, which leaves an absolute path as it is.
+import os as _os
+_MEMBER_TU = _os.path.join(_os.path.dirname(_os.path.dirname(_os.path.abspath(__file__))), "harness", "c14_member.cpp")
+HARNESS = {"src": "harness/c14.cpp", "repo_srcs": [_MEMBER_TU], "flags": ["-g1"]}
 TIE = ("hand-written model (FcpptModel/Model/C14.lean: row-major storage, index_absolute / row-view index arithmetic, every "
        "operator as the init/fold the header writes) + differential correspondence against the real templates on long scalars, "
        "static storage, row views and a buffer-view storage; the harness additionally recomputes every result naively on plain arrays")
@@ -52,9 +56,156 @@ def rvec(r, n, lo=-9, hi=9):
     return [r.range(lo, hi) for _ in range(n)]
 
 
+# ---------------------------------------------------------------- member operators (ops mem / mems)
+MEM_SHAPES_V = [(3, 1), (3, 2), (3, 3), (3, 4), (2, 2), (2, 3), (4, 4), (1, 1)]
+MEM_SHAPES_D = [(3, 1), (3, 2), (3, 3), (3, 4)]
+
+
+def enum_a(c, idx):
+    return [((idx >> (2 * j)) & 3) - 1 for j in range(c)]
+
+
+def enum_bq(c, idx):
+    return [2 if (idx >> j) & 1 else -1 for j in range(c)]
+
+
+def derive_ma(r, a, b):
+    rows = [a, b, [x + 2 * y + 3 for x, y in zip(a, b)], [2 * x - y - 5 for x, y in zip(a, b)]]
+    return [e for row in rows[:r] for e in row]
+
+
+def derive_mb(r, a, b):
+    return [10 * (i + 1) + j + y - x for i in range(r) for j, (x, y) in enumerate(zip(a, b))]
+
+
+def enum_bs(c, idx):
+    return [2 if (j + idx) % 2 else -1 for j in range(c)]
+
+
+def mems_count(c, e):
+    return 4 ** c * (4 ** c if (e == "f" or c <= 2) else 2 ** c if e == "q" else 2)
+
+
+def mems_refine(t):
+    fam, r, c, e = t[1], int(t[2]), int(t[3]), t[4]
+    allb = e == "f" or c <= 2
+    out = []
+    for ia in range(4 ** c):
+        for ib in range(4 ** c if allb else 2 ** c if e == "q" else 2):
+            a = enum_a(c, ia)
+            b = enum_a(c, ib) if allb else enum_bq(c, ib) if e == "q" else enum_bs(c, ib)
+            out.append(f"mem {fam} {r} {c} {vs(a)} {vs(b)} {vs(derive_ma(r, a, b))} {vs(derive_mb(r, a, b))} " + " ".join(t[5:]))
+    return out
+
+
+def vec_objects(fam, r, c, targets):
+    """descriptors of the vector-like objects of the world (fam, r, c): the mutable ones (targets) or all operands"""
+    k = r * c
+    if fam == "d":
+        mut = ["A", "B", "U1", f"U{1 + c}"]
+        return mut[:1] + mut[2:] if targets else mut + ["U0", "U2", "C1", f"C{1 + c}"]
+    mut = ["A", "B"] + [f"M{i}" for i in range(r)] + [f"P{r - 1}", "U1", f"U{1 + c}"] + [f"Q1.{i}" for i in range(r)]
+    if targets:
+        return [d for d in mut if d != "B"]
+    return mut + [f"N{i}" for i in range(r)] + ["P0", "U0", "U2", "C0", "C1", f"C{1 + c}", f"Q{1 + k}.0", "Q0.0", f"Q2.{r - 1}"]
+
+
+def mat_objects(r, c, targets):
+    k = r * c
+    mut = ["M", "P", "V1", f"V{1 + k}"]
+    return [d for d in mut if d != "P"] if targets else mut + ["V0", "V2", "W1", f"W{1 + k}", "W0"]
+
+
+def scalar_args(fam, r, c):
+    """every way a scalar argument can refer into the world, and independent values"""
+    out = ["k0", "k1", "k-1", "k2", "k-3"]
+    for d in dict.fromkeys(vec_objects(fam, r, c, False)):
+        out += [f"@{d}.{i}" for i in range(c)]
+    if fam == "v":
+        k = r * c
+        for d in ("M", "P", "V1", f"V{1 + k}", "V0", "W2"):
+            out += [f"@{d}.{i}" for i in sorted({0, 1, c - 1, c, k // 2, k - 2, k - 1} & set(range(k)))]
+    return list(dict.fromkeys(out))
+
+
+def member_patterns(fam, r, c, full):
+    """single statements: every target x every operand x every operator (full), or the matrix-level / row-level core"""
+    pats = []
+    vt, vo = vec_objects(fam, r, c, True), list(dict.fromkeys(vec_objects(fam, r, c, False)))
+    if not full:
+        vt = [d for d in vt if d in ("A", "M0", f"M{r - 1}", "U1", "Q1.0")]
+        vo = [d for d in vo if d in ("A", "B", "M0", f"M{r - 1}", "N0", "U0", "U1", "U2", "C1", "Q1.0", f"Q1.{r - 1}")]
+    for t in vt:
+        for x in vo:
+            for op in ("add", "sub", "mul", "asg"):
+                pats.append(f"{t} {op} {x}")
+        for x in scalar_args(fam, r, c):
+            if full or x[0] == "k" or x.startswith("@" + t + ".") or x.startswith("@M.") or x.startswith("@A."):
+                pats.append(f"{t} smul {x}")
+    if fam == "v":
+        for t in mat_objects(r, c, True):
+            for x in mat_objects(r, c, False):
+                for op in ("add", "sub", "asg"):
+                    pats.append(f"{t} {op} {x}")
+            for x in scalar_args(fam, r, c):
+                pats.append(f"{t} smul {x}")
+    return pats
+
+
+def random_stmt(rr, fam, r, c):
+    k = r * c
+    if fam == "v" and rr.chance(1, 4):
+        t = rr.choice(mat_objects(r, c, True) + ["P"])
+        op = rr.choice(["add", "sub", "asg", "smul", "smul", "set"])
+        if op == "smul":
+            return f"{t} smul {rr.choice(scalar_args(fam, r, c))}" if rr.chance(2, 3) else f"{t} smul k{rr.range(-9, 9)}"
+        if op == "set":
+            return f"{t} set {rr.below(k + 1)}:{rr.range(-9, 9)}"
+        return f"{t} {op} {rr.choice(mat_objects(r, c, False) + [f'V{rr.below(k + 3)}'])}"
+    t = rr.choice(vec_objects(fam, r, c, True) + ["B"])
+    op = rr.choice(["add", "sub", "mul", "asg", "smul", "smul", "set"])
+    if op == "smul":
+        return f"{t} smul {rr.choice(scalar_args(fam, r, c))}" if rr.chance(2, 3) else f"{t} smul k{rr.range(-9, 9)}"
+    if op == "set":
+        return f"{t} set {rr.below(c + 1)}:{rr.range(-9, 9)}"
+    return f"{t} {op} {rr.choice(vec_objects(fam, r, c, False) + [f'U{rr.below(2 * k + 3 - c)}'])}"
+
+
+def member_batches(rng, thorough):
+    # ---- exhaustive over small vectors: every single statement (target x operand x operator, every aliasing pattern)
+    ops = []
+    for fam, shapes in (("v", MEM_SHAPES_V), ("d", MEM_SHAPES_D)):
+        for (r, c) in shapes:
+            full = r == 3
+            for pat in member_patterns(fam, r, c, full):
+                e = ("f" if c == 3 else "q") if thorough else ("s" if c == 4 else "q")
+                ops.append(f"mems {fam} {r} {c} {e} {pat}")
+    yield Batch("member-single", ops, exhaustive=True,
+                note="member operators += -= *= (object / scalar) and = : every target x operand x operator of the world (same object, rows of the "
+                     "same matrix, overlapping views, scalar = element of any object), all a in {-1,0,1,2}^C x b in {-1,0,1,2}^C (C<=2; C=3 thorough) / {-1,2}^C (C=3 quick, C=4 thorough) / two alternating b (C=4 quick)")
+    # ---- two-statement sequences, exhaustive over small vectors for the aliasing core; seeded longer sequences on [-9,9]
+    r2 = rng.fork("member-seq")
+    ops = []
+    core = ["A smul @A.0", "A add A", "A mul A", "M0 add M1", "M1 add M1", "M0 smul @M1.0", "M smul @M.1", "A asg M0", "M0 asg A", "M0 asg N1", "M0 asg M1",
+            "U1 add U0", "A sub A", "M sub M", "M add P", "Q1.0 add U1", "V1 smul @U1.0", "A set 0:2", "M set 1:-1"]
+    for c in (1, 2, 3):
+        for s1 in core:
+            for s2 in core:
+                ops.append(f"mems v 3 {c} q {s1} {s2}")
+    yield Batch("member-two-step", ops, exhaustive=True, note="all ordered pairs of 19 core statements (save-mutate-restore, scale after add, write then read through a view ...), dimension 1-3")
+    ops = []
+    for _ in range(15000 if thorough else 3000):
+        fam = r2.choice("vvvd")
+        r, c = r2.choice(MEM_SHAPES_V if fam == "v" else MEM_SHAPES_D)
+        k = r * c
+        n = r2.range(1, 5)
+        ops.append(f"mem {fam} {r} {c} {vs(rvec(r2, c))} {vs(rvec(r2, c))} {vs(rvec(r2, k))} {vs(rvec(r2, k))} " + " ".join(random_stmt(r2, fam, r, c) for _ in range(n)))
+    yield Batch("member-random", ops, note="1-5 random statements on random worlds with entries in [-9,9] (all shapes, incl. out-of-range get_unsafe and non-existent views)")
+
+
 def nontrivial(op, result):
     t = op.split()
-    if t[0] in ("bits", "det0", "builders"):
+    if t[0] in ("bits", "det0", "builders", "mem", "mems"):
         return True
     if t[0] in ("pairs", "trios"):
         return any(int(x) != 0x55 for x in t[2:])      # 0x55 is the zero matrix
@@ -63,6 +214,8 @@ def nontrivial(op, result):
 
 def weight(op):
     t = op.split()
+    if t[0] == "mems":
+        return mems_count(int(t[3]), t[4])
     return 256 if t[0] in ("pairs", "trios") else 1
 
 
@@ -71,6 +224,8 @@ def refine(op):
     if t[0] == "trios":
         a, b = vs(decode2(int(t[2]))), vs(decode2(int(t[3])))
         return [f"trio {t[1]} 2 {a} {b} {vs(decode2(c))}" for c in range(256)]
+    if t[0] == "mems":
+        return mems_refine(t)
     if t[0] == "pairs":
         a = vs(decode2(int(t[2])))
         return [f"pair {t[1]} 2 {a} {vs(decode2(b))}" for b in range(256)]
@@ -186,6 +341,7 @@ def batches(rng, tier):
     for _ in range(100 * scale):
         ops.append("builders " + " ".join(str(r.range(-9, 9)) for _ in range(6)))
     yield Batch("vec-dim-random", ops, note="vectors and dims of dimension 1-4 in [-9,9], static / row-view / buffer-view operands; cross; builders")
+    yield from member_batches(rng, thorough)
 
 
 MANIFEST = {
